@@ -47,7 +47,7 @@ func c19Sig(o *Oracle, c consCase) string {
 	for _, op := range [][3]interface{}{{1, c.Subject, c.Clip}, {2, c.Subject, c.Clip}, {3, c.Subject, c.Clip}, {4, c.Subject, c.Clip}, {3, c.Clip, c.Subject}} {
 		bc := boolCase{CT: op[0].(int), FR: c.FR, Subject: op[1].(clip.Paths64), Clip: op[2].(clip.Paths64), Via: "BooleanOp"}
 		if ok, _, resp := c01Check(o, bc); !ok {
-			if s := siteOf(func() { runBool(bc) }, resp, "splitDiscard"); s != "" {
+			if s := siteOf(func() { runBool(bc) }, resp, "splitDiscard", "microSelfIntersect"); s != "" {
 				return s
 			}
 		}
